@@ -41,6 +41,8 @@ pub struct HistShared {
 }
 
 pub struct HistDriver {
+    /// every thread works through its own clone of the histogram handle
+    pub cloned: bool,
     pub label: String,
     pub path: Path,
     pub prop: Prop,
@@ -143,6 +145,13 @@ impl Driver for HistDriver {
         sh
     }
     fn body(&self, t: usize, sh: &HistShared, rec: &Recorder) {
+        let own;
+        let sh = if self.cloned {
+            own = HistShared { h: sh.h.clone(), vec: sh.vec.clone(), reg: sh.reg.clone() };
+            &own
+        } else {
+            sh
+        };
         for (i, op) in self.programs[t].iter().enumerate() {
             let (name, arg) = match op {
                 HOp::Observe(_) => ("observe", Val::I(i as i64)),
@@ -177,7 +186,7 @@ impl Driver for HistDriver {
     }
 
     fn spec(&self) -> serde_json::Value {
-        serde_json::json!({"kind": "histogram", "label": self.label, "path": self.path, "prop": self.prop, "prelude": self.prelude, "programs": self.programs, "audit": self.audit})
+        serde_json::json!({"kind": "histogram", "cloned": self.cloned, "label": self.label, "path": self.path, "prop": self.prop, "prelude": self.prelude, "programs": self.programs, "audit": self.audit})
     }
 
     fn check(&self, sh: &HistShared, x: &Execution) -> Result<String, (String, String)> {
@@ -520,6 +529,7 @@ pub fn hb_audit(steps: &[StepRec], n: usize, data: &HashSet<usize>, sync: &HashS
 
 pub fn driver_from_spec(v: &serde_json::Value) -> Option<HistDriver> {
     Some(HistDriver {
+        cloned: v["cloned"].as_bool().unwrap_or(false),
         label: v["label"].as_str()?.to_string(),
         path: serde_json::from_value(v["path"].clone()).ok()?,
         prop: serde_json::from_value(v["prop"].clone()).ok()?,
@@ -530,7 +540,7 @@ pub fn driver_from_spec(v: &serde_json::Value) -> Option<HistDriver> {
 }
 
 pub fn clone_driver(d: &HistDriver) -> HistDriver {
-    HistDriver { label: d.label.clone(), path: d.path, prop: d.prop, prelude: d.prelude.clone(), programs: d.programs.clone(), audit: d.audit }
+    HistDriver { cloned: d.cloned, label: d.label.clone(), path: d.path, prop: d.prop, prelude: d.prelude.clone(), programs: d.programs.clone(), audit: d.audit }
 }
 
 /// The start states every driver is run from (built sequentially in setup).
@@ -599,7 +609,7 @@ pub fn driver_set(prop: Prop, thorough: bool) -> Vec<Planned> {
             // deviation budget: Mode-U drivers in the thorough tier, the small Mode-U drivers in the quick tier
             let spurious = if mode == Mode::U && (thorough || calls <= 4) { 1 } else { 0 };
             out.push(Planned {
-                driver: HistDriver { label: format!("{} s{}", label, pi), path, prop, prelude: pre, programs: programs.clone(), audit: true },
+                driver: HistDriver { cloned: pi == 1, label: format!("{} s{}{}", label, pi, if pi == 1 { " cloned" } else { "" }), path, prop, prelude: pre, programs: programs.clone(), audit: true },
                 mode,
                 spurious,
             });
